@@ -1728,14 +1728,15 @@ def run_sched(case, cfg, out):
                 out.checks += 1
                 if s1 - f0 == 0:
                     ok = [A[f0][i]]
+                elif s1 - f0 == 1:
+                    ok = [A[f0][i], A[f0 + 1][i]]
                 else:
-                    # every state the call can have overlapped
-                    ok = [A[j][i] for j in range(f0, s1 + 1)]
-                    if s1 - f0 > 1:
-                        # more than one mutation during one lookup: the
-                        # statement speaks about one; only membership in
-                        # the states seen is demanded
-                        out.tag('lookup_spans_several')
+                    # more than one mutation during one lookup: the
+                    # statement speaks about one; a walk that saw the
+                    # first mutation's effect but not the second's may mix
+                    # them, so nothing is demanded of the answer itself
+                    out.tag('lookup_spans_several')
+                    continue
                 if a not in ok:
                     out.fail('sched-wrong-' + k[0],
                              '%s: %s for %r answered %r; %d mutation(s) '
